@@ -2,6 +2,7 @@
 objects see it (its public contract), payload encoding through the real registry, helpers."""
 from __future__ import annotations
 
+from pyvc.values import unmodelled as _unmodelled  # noqa: E402
 from pyvc import aio, sym
 from pyvc.sym import And, Or, Not, Implies, ite
 from pyvc.values import Builtin, Instance, Opaque, PyExc
@@ -58,7 +59,7 @@ class ApiSocket:
                     return None
                 return aio.Awaitable("socket." + name, run)
             return Builtin("socket." + name, call)
-        raise it.exc("AttributeError", name)
+        raise _unmodelled(self, name)
 
     def py_truth(self, it):
         return True
